@@ -14,6 +14,8 @@ PARTS = [Prelude('head.rs'), Raw('global size_of usize == 8;   // A-64BIT: the c
          Prelude('serspec.rs')] + io_head() + [
     Prelude('read.rs'),
     Prelude('alloc.rs'),
+    Prelude('stdspecs.rs'),
+    Prelude('stdspecs2.rs'),
     Raw('''
 /// R4: io::Error::new(kind, msg) / io::ErrorKind - error construction has no effect on control flow
 pub mod io {
